@@ -13,6 +13,20 @@ def curOut : Option Builder → List Shard
   | some b => [b.flatten]
   | none => []
 
+theorem started_cons (sh : Shard) (d : Doc) (ds : List Doc) (last : Option Nat) :
+    started sh (d :: ds) last =
+      match sh.repos[d.repo]? with
+      | none => []
+      | some r =>
+        if r.tomb then started sh ds last
+        else if last = some d.repo then started sh ds (some d.repo)
+        else r :: started sh ds (some d.repo) := by
+  cases h : sh.repos[d.repo]? <;> simp [started, h]
+
+def curRepos : Option Builder → List RepoMeta
+  | some b => b.groups.map (·.1)
+  | none => []
+
 theorem BI_empty : BI ⟨[], []⟩ where
   idx := by intro i g h; simp at h
   lang := by intro g h; cases h
@@ -33,12 +47,15 @@ theorem explodeLoop_spec (sh : Shard) :
           sh.repos[l]? = some r ∧ r.tomb = false)) →
       ∃ outs, explodeLoop sh ds last cur done = some outs ∧
         outs.flatMap flat = done.flatMap flat ++ curFlat cur ++ ds.filterMap (flatDoc sh) ∧
-        (∀ o ∈ outs, o ∈ done ∨ GoodOut o) := by
+        (∀ o ∈ outs, o ∈ done ∨ GoodOut o) ∧
+        outs.flatMap (·.repos) = done.flatMap (·.repos) ++ curRepos cur ++ started sh ds last := by
   intro ds
   induction ds with
   | nil =>
     intro last cur done _ _ _ hcur
-    refine ⟨done ++ curOut cur, ?_, ?_, ?_⟩
+    refine ⟨done ++ curOut cur, ?_, ?_, ?_, ?_⟩
+    rotate_left 3
+    · cases cur <;> simp [curOut, curRepos, started, Builder.flatten]
     · unfold explodeLoop curOut; cases cur <;> rfl
     · rcases hcur with ⟨_, rfl⟩ | ⟨l, b, r, ds0, _, rfl, hbi, _, _, _, _⟩
       · simp [curOut, curFlat]
@@ -78,10 +95,11 @@ theorem explodeLoop_spec (sh : Shard) :
           simp only [hadd]
           have hne2 : NE b2 := by
             intro g hgm; rw [hg2] at hgm; simp at hgm; subst hgm; exact hds'
-          obtain ⟨outs, he, hfl, hgood⟩ := ih (some d.repo) (some b2) done hok' hpw.2 hnext
+          obtain ⟨outs, he, hfl, hgood, hrep⟩ := ih (some d.repo) (some b2) done hok' hpw.2 hnext
             (Or.inr ⟨d.repo, b2, r, ds', rfl, rfl, hbi2, hne2, by simpa using hg2, hr, ht⟩)
-          refine ⟨outs, he, ?_, hgood⟩
-          rw [hfl]; simp [curFlat, hfl2]
+          refine ⟨outs, he, ?_, hgood, ?_⟩
+          · rw [hfl]; simp [curFlat, hfl2]
+          · rw [hrep, started_cons]; simp [hr, ht, curRepos, hg, hg2]
       · rw [if_neg hsame]
         have hnotgt := notgt last d.repo (fun l hl => hlast l hl d (by simp))
         rw [hnotgt]
@@ -96,9 +114,14 @@ theorem explodeLoop_spec (sh : Shard) :
         have hne2 : NE b2 := by
           intro g hgm; rw [hg2] at hgm; simp at hgm; subst hgm; exact hds'
         have hbf0 : bflat ({ groups := [(r, [])], langs := [] } : Builder) = [] := by simp [bflat]
-        obtain ⟨outs, he, hfl, hgood⟩ := ih (some d.repo) (some b2) (done ++ curOut cur) hok' hpw.2 hnext
+        obtain ⟨outs, he, hfl, hgood, hrep⟩ := ih (some d.repo) (some b2) (done ++ curOut cur) hok' hpw.2 hnext
           (Or.inr ⟨d.repo, b2, r, ds', rfl, rfl, hbi2, hne2, by simpa using hg2, hr, ht⟩)
-        refine ⟨outs, ?_, ?_, ?_⟩
+        refine ⟨outs, ?_, ?_, ?_, ?_⟩
+        rotate_left 3
+        · rw [hrep, started_cons]
+          have : (curOut cur).flatMap (·.repos) = curRepos cur := by
+            cases cur <;> simp [curOut, curRepos, Builder.flatten]
+          simp [hr, ht, hsame, curRepos, hg2, this]
         · rw [← he]; unfold curOut; cases cur <;> rfl
         · rw [hfl]
           have : (curOut cur).flatMap flat = curFlat cur := by
@@ -120,6 +143,9 @@ theorem explodeLoop_spec (sh : Shard) :
     · simp only [if_true]
       rw [hfd, ht]
       simp only [if_true]
-      exact ih last cur done hok' hpw.2 (fun l hl d' hd' => hlast l hl d' (List.mem_cons_of_mem _ hd')) hcur
+      have := ih last cur done hok' hpw.2 (fun l hl d' hd' => hlast l hl d' (List.mem_cons_of_mem _ hd')) hcur
+      obtain ⟨outs, he, hfl, hgood, hrep⟩ := this
+      refine ⟨outs, he, hfl, hgood, ?_⟩
+      rw [hrep, started_cons]; simp [hr, ht]
 
 end ZoektModel.C16
